@@ -154,13 +154,32 @@ def build(cname, shape, flagmode, meta, kind):
     return o
 
 
-def rebuild(s, dtype=None):
-    """object from a snapshot (replay); dtype: the dtype the data array is handed over with"""
+def with_layout(d, layout):
+    """the same values in another memory layout / with other array flags"""
+    if layout == "F":
+        return np.asfortranarray(d)
+    if layout == "strided":            # every second entry of a larger array, along the first and the last axis
+        big = np.full((2 * d.shape[0],) + d.shape[1:-1] + (2 * d.shape[-1],), 77.0, dtype=d.dtype)
+        big[::2, ..., ::2] = d
+        return big[::2, ..., ::2]
+    if layout == "readonly":
+        d = d.copy()
+        d.flags.writeable = False
+        return d
+    if layout == "broadcast":          # one element repeated with zero strides (read-only)
+        return np.broadcast_to(d.reshape(-1, d.shape[-1])[0].copy(), d.shape) if d.size else d
+    raise ValueError(layout)
+
+
+def rebuild(s, dtype=None, layout=None):
+    """object from a snapshot (replay); dtype / layout: how the data array is handed over"""
     cls = CLASSES[s["cls"]]
     shape = tuple(s["shape"])
     d = np.array(s["data"], float).reshape(shape + (cls.dim,))
     if dtype:
         d = d.astype(np.dtype(dtype))
+    if layout:
+        d = with_layout(d, layout)
     m = s["meta"]
     if s["cls"] == "Miller":
         o = Miller(xyz=d, phase=PHASES[m[2]])
@@ -372,7 +391,7 @@ def ref_step(cname, op, s):
         parts.insert(op["pos"], (data, flags))
         if any(len(p[1]) != n for p in parts):
             raise Expect()
-        d2 = np.stack([p[0] for p in parts], axis=1).reshape(n * len(parts), -1)
+        d2 = np.stack([p[0] for p in parts], axis=1).reshape(n * len(parts), data.shape[1])
         f2 = np.stack([p[1] for p in parts], axis=1).reshape(n * len(parts))
         return shape + (len(parts),), d2, f2, None
     if k in ("unit", "inv", "neg"):
@@ -465,6 +484,12 @@ def apply_op(o, op):
 def same_snap(a, b):
     return (a["shape"] == b["shape"] and a["meta"] == b["meta"] and a["flags"] == b["flags"]
             and np.array_equal(np.array(a["data"]), np.array(b["data"]), equal_nan=True))
+
+
+def foreign_rows(s_before, got):
+    """does the result contain an element whose data is not the data of any element of the operand?"""
+    have = {tuple(r) for r in s_before["data"]}
+    return any(tuple(r) not in have for r in got["data"])
 
 
 def compare(cname, opname, exp, got, s_before, rep, check_meta=True):
@@ -598,7 +623,12 @@ def run_case(cname, x0, prog, tag, props=True, record=True, extra=None):
         got = snap(res)
         steps.append({"op": op, "out": got})
         if expect_err:
-            if not (cname not in QUAT and op["op"] in ("inv",)):
+            if op["op"] == "get" and op["key"].get("grp") == "comp" and foreign_rows(before, got):
+                # worse than a missing error: the returned "elements" are not elements of the operand
+                fail(f"{cname}.{opname(op)}:no-raise-foreign-data",
+                     f"{cname}.{opname(op)} accepts a key numpy rejects on an index array (too many indices) and "
+                     f"returns shape {tuple(got['shape'])} with element data that no element of the operand has", rep)
+            elif not (cname not in QUAT and op["op"] in ("inv",)):
                 fail(f"{cname}.{opname(op)}:no-raise", f"{cname}.{opname(op)} accepts an argument numpy rejects on an index array", rep)
         elif exp is not None:
             compare(cname, opname(op), exp, got, before, rep, check_meta=op["op"] not in ("stack", "stackwith"))
@@ -646,12 +676,204 @@ def weighted(ws):
     return ws[-1][0]
 
 
+# ------------------------------------------------- extra oracle strata (oracle only)
+# Entry points / key kinds / input classes the random programs above never produce.  All of
+# them go through run_case(record=False): same reference (numpy on an index array), same
+# operand-mutation checks, replayable through ONLY; they are not handed to the Coq model.
+def rix(n):
+    return R.randint(-n, n - 1)
+
+
+ALL = ["s", None, None, None]
+# (kind, least number of axes)
+ADV_KINDS = [("newaxis-front", 1), ("newaxis-mid", 1), ("np-int", 1), ("np-array-1d", 1), ("np-array-2d", 1),
+             ("bool-list", 1), ("ellipsis", 1), ("int-ellipsis", 1), ("slice-ellipsis", 1),
+             ("two-lists", 2), ("slice-list", 2), ("int-list", 2), ("slice-mask", 2), ("list-slice", 2),
+             ("np-int-slice", 2), ("split-lists", 3), ("mask2-int", 3)]
+COMP_KINDS = ["ellipsis-int", "ellipsis-slice", "ellipsis-list", "toolong-revslice", "toolong-int"]
+ADV_SHAPES = [(4,), (2, 3), (3, 1, 2), (2, 2, 3), (1, 3), (2, 3, 2, 2)]
+
+
+def gen_adv_key(kind, shape):
+    nd = len(shape)
+    n0 = shape[0]
+    n1 = shape[1] if nd > 1 else 0
+    n2 = shape[2] if nd > 2 else 0
+    bare = False
+    if kind == "newaxis-front":
+        items, bare = [["n"]], True
+    elif kind == "newaxis-mid":
+        items = [list(ALL), ["n"]]
+    elif kind == "np-int":
+        items, bare = [["I", rix(n0)]], True
+    elif kind == "np-array-1d":
+        items, bare = [["a", [rix(n0) for _ in range(R.randint(1, 4))]]], True
+    elif kind == "np-array-2d":
+        items, bare = [["a", [[rix(n0) for _ in range(2)] for _ in range(R.randint(1, 3))]]], True
+    elif kind == "bool-list":
+        items, bare = [["b", [R.random() < 0.5 for _ in range(n0)]]], True
+    elif kind == "ellipsis":
+        items, bare = [["e"]], True
+    elif kind == "int-ellipsis":
+        items = [["i", rix(n0)], ["e"]]
+    elif kind == "slice-ellipsis":
+        items = [["s", None, None, R.choice([2, -1])], ["e"]]
+    elif kind == "two-lists":
+        k = R.randint(1, 3)
+        items = [["l", [rix(n0) for _ in range(k)]], ["l", [rix(n1) for _ in range(k)]]]
+    elif kind == "slice-list":
+        items = [list(ALL), ["l", [rix(n1) for _ in range(R.randint(1, 3))]]]
+    elif kind == "int-list":
+        items = [["i", rix(n0)], ["l", [rix(n1) for _ in range(R.randint(1, 3))]]]
+    elif kind == "slice-mask":
+        items = [["s", None, None, -1], ["m", [R.random() < 0.6 for _ in range(n1)]]]
+    elif kind == "list-slice":
+        items = [["l", [rix(n0) for _ in range(R.randint(1, 3))]], ["s", None, None, -1]]
+    elif kind == "np-int-slice":
+        items = [["I", rix(n0)], ["s", R.choice([None, 1]), None, None]]
+    elif kind == "split-lists":
+        k = R.randint(1, 3)
+        items = [["l", [rix(n0) for _ in range(k)]], list(ALL), ["l", [rix(n2) for _ in range(k)]]]
+    elif kind == "mask2-int":
+        items = [["m", [[R.random() < 0.6 for _ in range(n1)] for _ in range(n0)]], ["i", rix(n2)]]
+    # keys that address the trailing component axis of the stored array (not an axis of the object)
+    elif kind == "ellipsis-int":
+        items = [["e"], ["i", 0]]
+    elif kind == "ellipsis-slice":
+        items = [["e"], ["s", 0, 2, None]]
+    elif kind == "ellipsis-list":
+        items = [["e"], ["l", [0]]]
+    elif kind == "toolong-revslice":
+        items = [list(ALL) for _ in range(nd)] + [["s", None, None, -1]]
+    elif kind == "toolong-int":
+        items = [list(ALL) for _ in range(nd)] + [["i", 0]]
+    else:
+        raise ValueError(kind)
+    return {"t": "adv", "kind": kind, "grp": "comp" if kind in COMP_KINDS else "adv", "items": items, "bare": bare}
+
+
+def dtype_object(cname, shape, dt):
+    cls = CLASSES[cname]
+    n = int(np.prod(shape))
+    if dt.startswith("int"):
+        rows = [[R.randint(-3, 3) for _ in range(cls.dim)] for _ in range(n)]
+        for r in rows:
+            if not any(r):
+                r[R.randrange(cls.dim)] = R.choice([-2, 1, 3])
+    else:
+        rows = [[float(np.float32(R.gauss(0, 1))) for _ in range(cls.dim)] for _ in range(n)]
+    flags = [cname in ROT and R.random() < 0.5 for _ in range(n)]
+    return rebuild({"cls": cname, "shape": list(shape), "data": rows, "flags": flags, "meta": pick_meta(cname)}, dt)
+
+
+def extra_strata(reps):
+    names = list(CLASSES)
+    # (1) keys the program generator never draws: newaxis, Ellipsis, numpy scalars / integer arrays,
+    #     index lists on later axes, masks on later axes, combinations of advanced and basic items
+    for rep in range(reps):
+        for ki, (kind, need) in enumerate(ADV_KINDS):
+            ok_shapes = [sh for sh in ADV_SHAPES if len(sh) >= need]
+            for ci, cname in enumerate(names):
+                shape = ok_shapes[(ki + ci + rep) % len(ok_shapes)]
+                x0 = build(cname, shape, "mixed", pick_meta(cname), "plain")
+                prog = [{"op": "get", "key": gen_adv_key(kind, shape)}]
+                if (ki + ci) % 3 == 0:
+                    prog.append({"op": "flatten"})
+                st(f"adv-key/{kind}")
+                run_case(cname, x0, prog, "adv-key", props=False, record=False)
+    # (2) keys reaching the component axis: "..." followed by items, keys longer than ndim with slices
+    for rep in range(reps):
+        for ki, kind in enumerate(COMP_KINDS):
+            for cname in names:
+                # (2, dim): the last axis of the object is as long as the component axis, so that a key landing
+                # on the component axis can give an array the constructor accepts
+                for shape in [(3,), (2, 3), (2, 1, 2), (2, CLASSES[cname].dim)]:
+                    x0 = build(cname, shape, "mixed", pick_meta(cname), "plain")
+                    st(f"component-axis-key/{kind}")
+                    run_case(cname, x0, [{"op": "get", "key": gen_adv_key(kind, shape)}], "component-axis-key",
+                             props=False, record=False)
+    # (3) the inv() method (separately defined in Quaternion, Rotation, Misorientation, Orientation)
+    for rep in range(reps):
+        for cname in QUAT:
+            for si, shape in enumerate([(3,), (2, 3), (1, 2), (2, 1, 2), (0, 2), (2, 2, 2, 2)]):
+                progs = [[{"op": "invm"}], [{"op": "invm"}, {"op": "invm"}],
+                         [{"op": "transpose", "axes": list(range(len(shape)))[::-1]}, {"op": "invm"}, {"op": "flatten"}]]
+                x0 = build(cname, shape, "mixed", pick_meta(cname), "plain")
+                st(f"inv-method/{cname}")
+                run_case(cname, x0, progs[(si + rep) % 3], "inv-method", props=False, record=False)
+    # (4) stack of INDEPENDENT objects (own data, own flags, own metadata), list and tuple, every position
+    combos = [(0, 0, "list"), (1, 0, "tuple"), (1, 1, "list"), (2, 1, "tuple"), (2, 2, "list"), (3, 0, "tuple")]
+    for rep in range(reps):
+        for ci, cname in enumerate(names):
+            for bi, (k, pos, seq) in enumerate(combos):
+                shape = [(3,), (2, 2), (1, 2), (0, 2), (2, 1, 2), (2, 3)][(bi + ci + rep) % 6]
+                x0 = build(cname, shape, "mixed", pick_meta(cname), "plain")
+                others = [snap(build(cname, shape, R.choice(["mixed", "mixed", "none", "all"]), pick_meta(cname), "plain"))
+                          for _ in range(k)]
+                prog = [{"op": "stackwith", "others": others, "pos": pos, "seq": seq}]
+                if bi % 2:
+                    prog.append({"op": "flatten"})
+                st(f"stack-indep/{cname}")
+                run_case(cname, x0, prog, "stack-indep", props=False, record=False)
+    # (5) data handed over with an integer / single precision dtype: every operation, and every property read
+    g0 = {"op": "get", "key": {"t": "basic", "items": [["i", 0]], "bare": True}}
+    grev = {"op": "get", "key": {"t": "basic", "items": [["s", None, None, -1]], "bare": True}}
+    dprogs = [[{"op": "unit"}], [{"op": "neg"}], [{"op": "inv"}], [{"op": "flatten"}], [{"op": "squeeze"}],
+              [{"op": "transpose", "axes": None}], [g0], [grev], [{"op": "reshape", "dims": [-1], "tup": False}],
+              [{"op": "stack", "vs": ["id", "neg", "unit"]}], [{"op": "neg"}, {"op": "unit"}],
+              [grev, {"op": "neg"}, {"op": "flatten"}], [{"op": "flatten"}, {"op": "unit"}, {"op": "squeeze"}]]
+    for rep in range(reps):
+        for di, dt in enumerate(["int64", "int32", "float32"]):
+            for ci, cname in enumerate(names):
+                for pi, prog in enumerate(dprogs):
+                    if cname not in QUAT and any(o["op"] == "inv" for o in prog):
+                        continue
+                    shape = [(2, 3), (1, 3), (3, 2)][(pi + ci + di + rep) % 3]
+                    x0 = dtype_object(cname, shape, dt)
+                    st(f"dtype/{dt}/{cname}")
+                    run_case(cname, x0, prog, "dtype", props=(pi == 0), record=False, extra={"dtype": dt})
+    # (5b) data handed over in another memory layout (Fortran order, strided view of a larger array) or as an
+    #      array that cannot be written to (read-only copy, zero-stride broadcast): every operation and every
+    #      property read must work on it and leave it alone
+    for rep in range(reps):
+        for li, layout in enumerate(["F", "strided", "readonly", "broadcast"]):
+            for ci, cname in enumerate(names):
+                for pi, prog in enumerate(dprogs):
+                    if cname not in QUAT and any(o["op"] == "inv" for o in prog):
+                        continue
+                    shape = [(2, 3), (3, 2, 2), (1, 3), (4,)][(pi + ci + li + rep) % 4]
+                    if prog[0]["op"] == "transpose" and len(shape) != 2:
+                        shape = (3, 2)
+                    n = int(np.prod(shape))
+                    s0 = {"cls": cname, "shape": list(shape), "data": rand_data(n, CLASSES[cname].dim, "plain").tolist(),
+                          "flags": [cname in ROT and R.random() < 0.5 for _ in range(n)], "meta": pick_meta(cname)}
+                    x0 = rebuild(s0, None, layout)
+                    st(f"layout/{layout}/{cname}")
+                    run_case(cname, x0, prog, "layout", props=(pi == 0), record=False, extra={"layout": layout})
+    # (6) Miller metadata the main generator never draws: a coordinate format without a phase, a phase
+    #     made from a space group, a phase with a point group only
+    mprogs = [[{"op": "unit"}], [{"op": "neg"}], [g0], [grev], [{"op": "flatten"}], [{"op": "squeeze"}],
+              [{"op": "transpose", "axes": None}], [{"op": "reshape", "dims": [-1], "tup": True}],
+              [{"op": "get", "key": {"t": "mask", "mshape": [2], "bits": [True, False]}}],
+              [grev, {"op": "flatten"}, {"op": "neg"}, {"op": "unit"}]]
+    metas = [[0, 0, 0, f] for f in range(1, 5)] + [[0, 0, 3, f] for f in range(5)] + [[0, 0, 4, f] for f in range(3)]
+    for rep in range(reps):
+        for mi, meta in enumerate(metas):
+            for pi, prog in enumerate(mprogs):
+                shape = [(2, 3), (2, 1), (2, 2, 2)][(mi + pi + rep) % 3]
+                if prog[0]["op"] == "transpose" and len(shape) != 2:
+                    shape = (2, 3)
+                x0 = build("Miller", shape, "none", meta, "plain")
+                st(f"miller-meta/phase={meta[2]}/fmt={FMTS[meta[3]]}")
+                run_case("Miller", x0, prog, "miller-meta", props=False, record=False)
+
+
 if ONLY is not None:
     for c in ONLY:
-        x0 = rebuild(c["init"], c.get("dtype"))
-        ext = any(is_ext(o) for o in c["prog"])
-        run_case(c["cls"], x0, c["prog"], "replay", record=not ext and not c.get("dtype"),
-                 extra={"dtype": c["dtype"]} if c.get("dtype") else None)
+        x0 = rebuild(c["init"], c.get("dtype"), c.get("layout"))
+        ext = any(is_ext(o) for o in c["prog"]) or bool(c.get("dtype")) or bool(c.get("layout"))
+        run_case(c["cls"], x0, c["prog"], "replay", record=not ext,
+                 extra={k: c[k] for k in ("dtype", "layout") if c.get(k)})
 elif EXH is not None:
     for cname in CLASSES:
         for shape in [(3,), (2, 2), (1, 3), (2, 1, 2), (0, 2), (2, 3, 2, 2)]:
@@ -695,5 +917,7 @@ else:
         cname = R.choice(["Vector3d", "Miller"])
         shape = R.choice(SHAPES["1d"] + SHAPES["2d"] + SHAPES["size1"])
         azimuth_case(cname, shape, pick_meta(cname))
+    if N:
+        extra_strata(1 if N <= 1000 else 3)
 
 emit({"cases": cases, "fails": fails, "strata": strata, "order": ORDER})
